@@ -828,7 +828,9 @@ func unmarshalProto(inBytes []byte, outi interface{}) error {
 		}
 	}
 	for i := range in.Link {
-		out.Link[i] = in.Link[i]
+		if in.Link[i] != "" {
+			out.Link[i] = in.Link[i]
+		}
 	}
 	return nil
 }
